@@ -168,9 +168,12 @@ def tlc_model(tag, module, consts, invariants, workers=None, timeout_s=1800, ini
 # ------------------------------------------------------------------------------------------
 def load_known():
     """KNOWN_FINDINGS.txt lines:
-         open: property=<id> kind=<kind> pat=<json string> flags=<str> input=<json string> what=<text>
-         fixed: property=<id> <commit> <what failed>
-       Only `open:` lines suppress anything; identification is the exact (kind, pattern, flags, input)."""
+         open: property=<id> callsite=<name> what=<text>
+               (a result produced while the engine's own search cut-off <name> fired, as noted by the
+                cfg(regexml_verif) hook: force_progress / zero_length_history)
+         open: property=<id> kind=<kind> pat=<json string> flags=<str|-> input=<json string> what=<text>
+         fixed: property=<id> <commit> <what failed>        (suppresses nothing)
+       The file is never written at check time."""
     path = os.path.join(ROOT, "KNOWN_FINDINGS.txt")
     out = []
     if not os.path.exists(path):
@@ -178,6 +181,10 @@ def load_known():
     for line in open(path, encoding="utf-8"):
         line = line.strip()
         if not line.startswith("open:"):
+            continue
+        m = re.match(r"open: property=(\S+) callsite=(\S+) what=(.*)$", line)
+        if m:
+            out.append({"property": m.group(1), "callsite": m.group(2), "what": m.group(3)})
             continue
         m = re.match(r"open: property=(\S+) kind=(\S+) pat=(\"(?:[^\"\\]|\\.)*\") flags=(\S*) input=(\"(?:[^\"\\]|\\.)*\") what=(.*)$", line)
         if not m:
@@ -188,9 +195,17 @@ def load_known():
     return out
 
 
+CUT_BITS = {"force_progress": 1, "zero_length_history": 2}
+
+
 def match_known(known, prop, v):
     for k in known:
-        if k["property"] == prop and k["kind"] == v["kind"] and k["pat"] == v.get("pat_s") \
+        if k["property"] != prop:
+            continue
+        if "callsite" in k:
+            if int(v.get("cut") or 0) & CUT_BITS.get(k["callsite"], 0):
+                return k
+        elif k["kind"] == v["kind"] and k["pat"] == v.get("pat_s") \
                 and k["flags"] == v.get("flags", "") and k["input"] == v.get("s_s", ""):
             return k
     return None
